@@ -19,7 +19,7 @@ MNext == S.clock < MaxClock /\ \E c \in {x \in Calls(S) : ~IllegalSelfCopy(x)} :
 MSpec == MInit /\ [][MNext]_mvars
 
 Same == /\ Strip(Sc) = Strip(S)
-        /\ cres = [err |-> SrvCode(res.err), tr |-> TRUE, vid |-> res.vid, dm |-> res.dm, uid |-> res.uid]
+        /\ cres = [CErrOf("-", res.err, {}) EXCEPT !.vid = res.vid, !.dm = res.dm, !.uid = res.uid]
 Witness == IF Same THEN TRUE ELSE PrintT(ToJson(hist)) /\ TLCSet("exit", TRUE)
 MView == <<S, Sc, res, cres>>
 =============================================================================
